@@ -172,5 +172,43 @@ func Specs() map[string]*PropSpec {
 		Assumptions: []string{"account keeper stub holding BaseAccounts", "sequences only grow (each accepted message increments), so rejection right after acceptance extends to every later state"},
 		Stubs:       []string{"vAK"},
 	}
+	sd := func(fn string, kv ...string) Inst { return Inst{Pkg: "x/evm/statedb", Fn: fn, Params: pm(kv...)} }
+	m["C05"] = &PropSpec{
+		ID: "C05", Pkgs: []string{"./x/evm/statedb"},
+		Quick: []Inst{sd("VerifC05_StateDB", "ops", "3", "kinds", "tsdf"), sd("VerifC05_StateDB", "ops", "4", "kinds", "sfc", "addrs", "2", "vals", "2"), sd("VerifC05_StateDB", "ops", "3", "kinds", "tfc", "amts", "1")},
+		Thorough: []Inst{sd("VerifC05_StateDB", "ops", "3", "kinds", "tsdfc"), sd("VerifC05_StateDB", "ops", "4", "kinds", "sfc", "addrs", "2", "vals", "2"), sd("VerifC05_StateDB", "ops", "4", "kinds", "tfc", "amts", "1"),
+			sd("VerifC05_StateDB", "ops", "4", "kinds", "sdf", "addrs", "2", "vals", "2")},
+		Bounds: map[string]string{
+			"quick":    "every program of <= 3 state operations (value transfer, SSTORE, SELFDESTRUCT, nested call frame that returns or reverts, depth <= 2) over 3 accounts x 2 slots; plus the focused families of 4 operations {SSTORE, frame, mid-transaction Commit} over 2 accounts and 3 operations {transfer, frame, mid-transaction Commit}; all operand choices enumerated",
+			"thorough": "all five operation kinds with 3 operations; the focused families with 4 operations",
+		},
+		Outside:     []string{"the Cosmos-side effects of precompile bodies (delegations, grants, escrow): need the precompile harness; recorded as an architectural finding in DESIGN.md", "gas, contract bytecode (the harness is the call tree)", "longer programs / deeper nesting than the bound"},
+		Assumptions: []string{"the frame protocol of go-ethereum's Call (Snapshot; transfer; body; RevertToSnapshot on failure) and of opSelfdestruct, restated in the harness", "ledger keeper = what x/evm keeper + bank record, with SetBalance's mint/burn delta", "all operands are concrete after the symbolic choice: exhaustive path enumeration over the bounded program space"},
+		Stubs:       []string{"sLedger (statedb.Keeper)"},
+	}
+	m["C02"] = &PropSpec{
+		ID: "C02", Pkgs: []string{"./x/evm/statedb"},
+		Quick:    []Inst{sd("VerifC05_StateDB", "ops", "3", "kinds", "tdf"), sd("VerifC05_StateDB", "ops", "4", "kinds", "td", "amts", "1")},
+		Thorough: []Inst{sd("VerifC05_StateDB", "ops", "4", "kinds", "tdf", "amts", "1"), sd("VerifC05_StateDB", "ops", "4", "kinds", "td")},
+		Bounds: map[string]string{
+			"quick":    "every program of <= 3 operations from {value transfer, SELFDESTRUCT, nested frame} over 3 accounts, and every program of 4 operations from {transfer, SELFDESTRUCT}: after Commit total supply = sum of surviving balances, never above the initial supply, every balance = before + received - paid",
+			"thorough": "4 operations with frames",
+		},
+		Outside:     []string{"precompile calls (staking / distribution / ICS-20 / bank) and their balance mirroring: need the precompile harness; the suspected overwrite of Cosmos-side debits by cached objects is recorded in DESIGN.md as not yet decided", "fees (C07)"},
+		Assumptions: []string{"as C05"},
+		Stubs:       []string{"sLedger"},
+	}
+	m["C01"] = &PropSpec{
+		ID: "C01", Pkgs: []string{"./x/evm/statedb"},
+		Quick:    []Inst{{Pkg: "x/evm/statedb", Fn: "VerifC01_CommitOrder", Params: pm("ops", "2", "kinds", "ts"), EngineReplay: true}},
+		Thorough: []Inst{{Pkg: "x/evm/statedb", Fn: "VerifC01_CommitOrder", Params: pm("ops", "3", "kinds", "ts", "amts", "1", "vals", "2"), EngineReplay: true}},
+		Bounds: map[string]string{
+			"quick":    "StateDB.Commit after every program of <= 2 operations (transfers, SSTOREs) over 3 accounts sharing their first 16 address bytes and 2 slots: all iteration orders of the dirty-account and dirty-storage maps explored; the sequence of keeper writes is ascending in (address, key) for each",
+			"thorough": "<= 3 operations",
+		},
+		Outside:     []string{"equality of app hashes of two replicas over block histories (BaseApp, IAVL, all modules)", "goroutine-fed counters (app/tps_counter.go): concurrency", "fixed Begin/EndBlocker ordering and sorted module-account construction in app.go (construction-time facts)"},
+		Assumptions: []string{"Go map iteration order modelled as an arbitrary permutation chosen per range statement", "counterexamples are confirmed by concrete re-execution with the same iteration order (a native run cannot fix the order)"},
+		Stubs:       []string{"sLedger"},
+	}
 	return m
 }
